@@ -73,7 +73,7 @@ def generate(seed, tier):
     g = Stream(seed, "gen")
     fmt = g.choice(OWN * 3 + VIA_RDFLIB)
     quad = fmt in ("nquads", "trig", "trix", "json-ld", "hext") and g.chance(0.7)
-    subs = [u("s"), u("café/x"), ["b", "b1"], ["b", "b2"], u("ns#frag"), u("sub/s")]
+    subs = [u("s"), u("café/x"), ["b", "b1"], ["b", "b2"], u("ns#frag"), u("sub/s"), u("ns#a:b"), u("ns#x.y."), u("ns#-d~e"), ["b", "bé.x-1"]]
     preds = [u("p"), u("ns#q"), ["u", writers.RDF + "type"], u("p-2"), u("sub/p")]
     gnames = [u("g1"), ["b", "gb"]]
     quads = []
@@ -81,13 +81,13 @@ def generate(seed, tier):
         s, p = g.pick(subs), g.pick(preds)
         k = g.randrange(8)
         if p[1].endswith("type") or k == 0:
-            o = g.choice([u("C"), u("s"), ["b", "b1"]])
+            o = g.choice([u("C"), u("s"), ["b", "b1"], u("ns#a:b"), u("ns#x.y.")])
         elif k == 1:
             o = ["b", g.choice(["b1", "b2", "b3"])]
         elif k == 2:
             o = ["l", g.choice(["7", "-3", "0", "12345678901234567890"]), None, XSD + "integer"]
         elif k == 3:
-            o = g.choice([["l", "true", None, XSD + "boolean"], ["l", "1.5", None, XSD + "decimal"], ["l", "false", None, XSD + "boolean"], ["l", "2020-01-01", None, XSD + "date"]])
+            o = g.choice([["l", "true", None, XSD + "boolean"], ["l", "1.5", None, XSD + "decimal"], ["l", "false", None, XSD + "boolean"], ["l", "2020-01-01", None, XSD + "date"], ["l", "x y", None, EX + "dt"], ["l", "", None, EX + "ns#dt"]])
         elif k == 4:
             o = ["l", g.pick(STRINGS), g.choice(["en", "en-GB", "fr"]), None]
         else:
@@ -105,6 +105,12 @@ def generate(seed, tier):
         for i, m in enumerate(members):
             quads.append([cells[i], ["u", writers.RDF + "first"], m, gr])
             quads.append([cells[i], ["u", writers.RDF + "rest"], cells[i + 1] if i + 1 < len(cells) else ["u", writers.RDF + "nil"], gr])
+    if g.chance(0.2):
+        # a container: rdf:_1 .. rdf:_k (RDF/XML has rdf:li for these)
+        gr = g.choice([None] + gnames) if quad else None
+        box = g.pick(subs)
+        for i in range(g.randint(1, 3)):
+            quads.append([box, ["u", writers.RDF + "_%d" % (i + 1)], g.choice([u("C"), ["l", "m%d" % i, None, None], ["b", "b3"]]), gr])
     modes = list(MODES)
     g.shuffle(modes)
     nm = g.randint(6, len(modes))
@@ -161,6 +167,9 @@ def make_doc(cfg):
     if fmt in OWN:
         return writers.WRITERS[fmt](quads, random.Random(cfg["style_seed"]))
     if _own_xml(cfg):
+        if (cfg["style_seed"] // 2) % 3:
+            # (two thirds of them with the syntax's abbreviated forms)
+            return writers.write_rdfxml_rich([q for q in quads if q[3] is None], random.Random(cfg["style_seed"]), ext_base=xb)
         return writers.write_rdfxml([q for q in quads if q[3] is None], random.Random(cfg["style_seed"]), ext_base=xb)
     if fmt == "json-ld" and (xb or cfg["style_seed"] % 2 == 0):
         # (half of the JSON-LD documents come from the independent writer - expanded form, @graph, @list - the rest from rdflib)
@@ -179,7 +188,7 @@ def make_doc(cfg):
 def _own_xml(cfg):
     """RDF/XML: half of the documents come from the independent writer (xml:base per element, an ambient xml:lang that literals
     inherit or switch off), the other half from rdflib's serialiser"""
-    return cfg["format"] == "xml" and (cfg["style_seed"] % 2 == 0 or cfg.get("publicid")) and all(q[0][0] != "b" or q[0][1].isalnum() for q in cfg["quads"])
+    return cfg["format"] == "xml" and (cfg["style_seed"] % 2 == 0 or cfg.get("publicid")) and all(t is None or t[0] != "b" or writers._NCNAME.match(t[1]) for q in cfg["quads"] for t in q)
 
 
 class _NoClose(io.BytesIO):
